@@ -21,6 +21,16 @@ def world_jobs(profiles, tier, seed, quick_count, thorough_count, length=60, als
     return jobs
 
 
+def miri_jobs(tier, seed):
+    """thorough tier only: a few short histories per profile interpreted by Miri (about 5 minutes each)"""
+    if tier != "thorough":
+        return []
+    profs = ["containers", "mixed", "batch", "query", "serde", "malformed", "reserve", "containers", "mixed", "batch", "containers", "serde"]
+    return [{"engine": "world", "name": f"miri-{p}-{i}", "miri": True, "timeout": 2400,
+             "args": ["--seed", seed * 7919 + 500 + i, "--count", 4, "--len", 40, "--profile", p]}
+            for i, p in enumerate(profs)]
+
+
 def capacity_jobs(tier, seed):
     """large batches / merges across capacity boundaries (observations thinned: worlds get big)"""
     if tier == "quick":
@@ -81,7 +91,8 @@ def plan(pid, tier, seed):
         return {"jobs": world_jobs(["containers", "batch"], tier, seed, 200, 40000, length=80, also_release=True) + capacity_jobs(tier, seed), "release": True,
                 "trusted_base": CONT_TRUST}
     if pid == "C04":
-        return {"jobs": world_jobs(["containers", "mixed", "query"], tier, seed, 150, 30000, length=80, also_release=True) + capacity_jobs(tier, seed), "release": True,
+        return {"jobs": world_jobs(["containers", "mixed", "query"], tier, seed, 150, 30000, length=80, also_release=True) + capacity_jobs(tier, seed)
+                        + miri_jobs(tier, seed), "release": True,
                 "trusted_base": CONT_TRUST + ["the allocator returns aligned, disjoint blocks; provenance and the actual reads/writes of the "
                                               "unsafe code are runtime facts outside the model (partial)"],
                 "assumptions": ["partial: Lean proves the layout arithmetic the unsafe code relies on; that the code performs exactly "
